@@ -318,6 +318,8 @@ fn main() {
 				map::<u8, u16>(&mut ctx); map::<u32, String>(&mut ctx); map::<String, Vec<u8>>(&mut ctx); map::<i8, ()>(&mut ctx);
 				set::<u32>(&mut ctx); set::<String>(&mut ctx); set::<i16>(&mut ctx); heap::<u8>(&mut ctx); heap::<i16>(&mut ctx);
 				string(&mut ctx);
+				// holders (borrowed, boxed, shared, copy-on-write, element-wise) against the plain value
+				likes::drive(&mut ctx);
 				#[cfg(feature = "bit-vec")]
 				{
 					bits::<u8, Lsb0>(&mut ctx); bits::<u8, Msb0>(&mut ctx); bits::<u16, Lsb0>(&mut ctx); bits::<u16, Msb0>(&mut ctx);
